@@ -216,7 +216,8 @@ def gen_instance(rng, iid, family='random', nmax_geos=6):
       for d in range(n_dates):
         if (g, d) in cells:
           cells[(g, d)] += off
-  if n >= 2 and family in ('random', 'constraints', 'degenerate') and iid % 9 in (4, 7):
+  neg_vol = family == 'c13vol' and iid % 3 == 1
+  if n >= 2 and ((family in ('random', 'constraints', 'degenerate') and iid % 9 in (4, 7)) or neg_vol):
     # responses need not be positive: the smallest geo records net outflows (every value negated; any group with
     # another geo still has a positive total) or nets out to exactly zero (+a, -a, +b, -b, ...: share zero)
     tot = {g: sum(v for (gg, _), v in cells.items() if gg == g) for g in range(1, n + 1)}
@@ -224,10 +225,16 @@ def gen_instance(rng, iid, family='random', nmax_geos=6):
     others = [tot[g] for g in tot if g != g0]
     if min(others) > 0 and tot[g0] < 0.9 * min(others):
       days = sorted(d for (gg, d) in cells if gg == g0)
-      if iid % 9 == 4:
+      if iid % 9 == 4 or neg_vol:
         f = max(1.0, 0.85 * min(others) / max(tot[g0], 1))     # as large as the next geo allows
         for d in days:
           cells[(g0, d)] = -int(round(cells[(g0, d)] * f))
+        if share[1] == 0 and vtol[1] == 0:
+          # shares are where the sign matters: such a panel gets a volume tolerance or a share range
+          if (iid // 9) % 2:
+            vtol = [(1, 2), (1, 1), (1, 4)][iid % 3]
+          else:
+            share = (5, 100, [45, 60, 70][iid % 3], 100)
       elif len(days) >= 4:
         amp = random.Random(iid * 31 + 7)
         for j in range(0, len(days) - 1, 2):
